@@ -347,6 +347,7 @@ class Interp:
         self.call_type = None
         self.let_type = None
         self.lenient = False
+        self.signed_cmp = False   # obligations over code whose integers are all i32 / i64 switch to signed comparisons
         self.resolve_into = False
         self.opaque_iteration = False  # lenient extras for decision skeletons: iterate opaque collections once, drop field stores into opaque values
         self.macro_models = {}  # macro name -> python callable(interp, evaluated args)
@@ -695,6 +696,8 @@ class Interp:
             fa, fb = self.to_fp(a), self.to_fp(b)
             return {"<": z3.fpLT, "<=": z3.fpLEQ, ">": z3.fpGT, ">=": z3.fpGEQ}[op](fa, fb)
         a, b = to_bv(a), to_bv(b)
+        if self.signed_cmp:
+            return {"<": lambda x, y: x < y, "<=": lambda x, y: x <= y, ">": lambda x, y: x > y, ">=": lambda x, y: x >= y}[op](a, b)
         return {"<": z3.ULT, "<=": z3.ULE, ">": z3.UGT, ">=": z3.UGE}[op](a, b)
 
     def to_fp(self, v):
@@ -1077,7 +1080,7 @@ class Interp:
     def default_of_type(self, ty):
         t = ty.replace(" ", "")
         base = t.split("<")[0].split("::")[-1]
-        if base in ("BTreeMap", "HashMap"):
+        if base in ("BTreeMap", "HashMap", "KVMap"):   # KVMap: the generated message code's alias of HashMap
             return {}
         if base in ("Vec", "BTreeSet", "HashSet", "LinkedList", "VecDeque"):
             return []
